@@ -317,8 +317,12 @@ def run(ctx: Ctx) -> int:
     # ---- code -> spec : the real ASTBuilder on generated modules
     nmod = 60 if ctx.quick else 600
     obs: List[Dict[str, Any]] = []
-    for i in range(nmod):
-        src = pygen.gen_module(rng, depth=3, max_stmts=3)
+    corner = ["", '"""only a docstring"""\n', "# just a comment\n", "pass\n", '"""doc"""\nimport os\n', 'x = 1\n"""attr doc"""\n',
+              "if __name__ == '__main__':\n    def f(): pass\n", "class C:\n    pass\n", "def f():\n    def g(): pass\n    class K: pass\n",
+              "class C:\n    @property\n    def p(self): return 1\n    @p.setter\n    def p(self, v): pass\n",
+              "from typing import overload\n@overload\ndef f(a: int) -> int: ...\n@overload\ndef f(a: str) -> str: ...\ndef f(a): return a\n"]
+    for i in range(nmod + len(corner)):
+        src = corner[i] if i < len(corner) else pygen.gen_module(rng, depth=3, max_stmts=3)
         try:
             ast.parse(src)
         except SyntaxError as e:                        # generator bug
